@@ -1,9 +1,10 @@
 """C17 — curvilinear abscissa and speed features match their geometric definitions
 (tracklib/algo/cinematics.py computeAbsCurv / estimate_speed, algo/analytics.py ds / speed,
 core/operators.py Integrator)."""
-import math, calendar, itertools
+import math, calendar, itertools, time as _time
 from fractions import Fraction
-from engine import Prop, fbits, bitsf, ratstr, parse_rat, tok_list, untok, close
+from engine import Prop, fbits, bitsf, ratstr, parse_rat, tok_list, untok, close, err_kind
+from props import c17world as W
 
 NAN = float("nan")
 
@@ -14,6 +15,10 @@ def isnan(v):
 
 def ulp(x):
     return math.ulp(abs(float(x)))
+
+
+def json_short(op):
+    return "[" + ",".join(str(x) if not isinstance(x, list) else "[..]" for x in op) + "]"
 
 
 class P(Prop):
@@ -45,9 +50,12 @@ class P(Prop):
         from tracklib.core.obs_coords import ENUCoords
         from tracklib.core.obs_time import ObsTime
         from tracklib.core.track import Track
-        from tracklib.algo.cinematics import computeAbsCurv, estimate_speed
+        from tracklib.algo.cinematics import computeAbsCurv, estimate_speed, computeCurvAbsBetweenTwoPoints
+        from tracklib.algo.analytics import ds, speed
+        from tracklib.core.operators import Operator
         self.Obs, self.ENU, self.T, self.Track = Obs, ENUCoords, ObsTime, Track
         self.computeAbsCurv, self.estimate_speed = computeAbsCurv, estimate_speed
+        self.curvAbsBetween, self.ds, self.speed, self.Operator = computeCurvAbsBetweenTwoPoints, ds, speed, Operator
 
     # ---------------------------------------------------------------- generators
     OPS = ["a", "s", "as", "sa", "aa", "ss", "asas", "aas", "ssa", "saas"]
@@ -75,6 +83,12 @@ class P(Prop):
             out.append(self.floaty(rng))
         for _ in range(nrand // 3):
             out.append(self.prefeat(rng))
+        # histories on observations shared between tracks, every entry point, in-place edits (c17world.py)
+        out += W.enum_world(2)
+        if tier == "thorough":
+            out += W.enum_world(3)
+        for _ in range(nrand * 2):
+            out.append(W.gen_world(rng))
         # single-fix tracks (outside the statement: correspondence only)
         for _ in range(20):
             out.append({"kind": "single", "mode": "q", "pos": [[rng.randrange(-5, 5), rng.randrange(-5, 5), 1]],
@@ -144,13 +158,13 @@ class P(Prop):
         p = case["pos"]
         return [math.hypot(p[i + 1][0] - p[i][0], p[i + 1][1] - p[i][1]) for i in range(len(p) - 1)]
 
-    def describe(self, case):
+    def describe1(self, case):
         n = len(case["pos"])
         t = case["tms"]
         return {"kind": case["kind"], "n": n, "ops": case["ops"],
                 "repeated_pos": any(l == 0 for l in self.legs(case)), "repeated_time": any(t[i] == t[i + 1] for i in range(n - 1))}
 
-    def nontrivial(self, case):
+    def nontrivial1(self, case):
         return len(case["pos"]) >= 2 and any(l > 0 for l in self.legs(case))
 
     # ---------------------------------------------------------------- implementation
@@ -166,7 +180,7 @@ class P(Prop):
                 tr.setObsAnalyticalFeature(name, i, NAN if v == "nan" else v)
         return tr
 
-    def impl(self, case):
+    def impl1(self, case):
         tr = self.build(case)
         rets = []
         for op in case["ops"]:
@@ -186,7 +200,7 @@ class P(Prop):
     def abs_t(self, tms):
         return (tms // 1000) + (tms % 1000) / 1000.0 if tms % 1000 else tms // 1000
 
-    def requests(self, case):
+    def requests1(self, case):
         q = case["mode"] == "q"
         enc = (lambda v: "nan" if v == "nan" else ratstr(v)) if q else (lambda v: "nan" if v == "nan" else fbits(v))
         xs = tok_list(enc(p[0]) for p in case["pos"])
@@ -198,7 +212,7 @@ class P(Prop):
         feats = tok_list((nm + ":" + tok_list(enc(v) for v in col) for nm, col in case["feats"]), sep=";")
         return ["C17.run %s %s %s %s %s %s" % (case["mode"], xs, ys, ts, feats, case["ops"])]
 
-    def decode(self, case, replies):
+    def decode1(self, case, replies):
         r = replies[0]
         if r == "bad-request":
             raise ValueError("bad-request")
@@ -215,7 +229,7 @@ class P(Prop):
                 "t": ts, "tms": list(case["tms"]), "n": len(xs)}
 
     # ---------------------------------------------------------------- oracle (transfer)
-    def spec(self, case, out):
+    def spec1(self, case, out):
         if "err" in out:
             return "raised %s (%s)" % (out["err"], out.get("detail"))
         pos, tms, n = case["pos"], case["tms"], len(case["pos"])
@@ -280,7 +294,7 @@ class P(Prop):
         return None
 
     # ---------------------------------------------------------------- shrinking / search
-    def shrink(self, case):
+    def shrink1(self, case):
         n = len(case["pos"])
         if len(case["ops"]) > 1:
             for i in range(len(case["ops"])):
@@ -299,5 +313,366 @@ class P(Prop):
             yield dict(case, tms=[t - t0 for t in case["tms"]])
 
     def mutate(self, case, rng):
-        for _ in range(20):
+        for _ in range(10):
             yield self.lattice(rng)
+        for _ in range(20):
+            yield W.gen_world(rng)
+
+    # ---------------------------------------------------------------- dispatch: single-track cases / world histories
+    def impl(self, case):
+        return self.w_impl(case) if "hist" in case else self.impl1(case)
+
+    def requests(self, case):
+        return self.w_requests(case) if "hist" in case else self.requests1(case)
+
+    def decode(self, case, replies):
+        return self.w_decode(case, replies) if "hist" in case else self.decode1(case, replies)
+
+    def spec(self, case, out):
+        return self.w_spec(case, out) if "hist" in case else self.spec1(case, out)
+
+    def shrink(self, case):
+        return self.w_shrink(case) if "hist" in case else self.shrink1(case)
+
+    def describe(self, case):
+        return self.w_describe(case) if "hist" in case else self.describe1(case)
+
+    def nontrivial(self, case):
+        return self.w_nontrivial(case) if "hist" in case else self.nontrivial1(case)
+
+    # ================================================================ world histories (c17world.py)
+    # ---------------------------------------------------------------- implementation
+    def w_impl(self, case):
+        if not W.valid_case(case):
+            return {"invalid": True}
+        H = []
+        for p, tms in zip(case["pos"], case["tms"]):
+            t = self.T.readUnixTime(tms // 1000)
+            t.ms = tms % 1000
+            H.append(self.Obs(self.ENU(p[0], p[1], p[2]), t))
+        tracks = [self.Track(list(H), 1)]
+        ops = []
+        for op in case["hist"]:
+            k = op[1]
+            pre = self.w_table(tracks[k])
+            try:
+                rec = {"r": self.w_apply(H, tracks, op)}
+            except BaseException as e:
+                if isinstance(e, KeyboardInterrupt):
+                    raise
+                rec = {"err": err_kind(e)}
+            rec["pre"], rec["post"], rec["heap"] = pre, self.w_table(tracks[k]), self.w_heap(H)
+            ops.append(rec)
+        final = []
+        for tr in tracks:
+            tab = self.w_table(tr)
+            tab["ids"] = self.w_ids(H, tr)
+            final.append(tab)
+        return {"ops": ops, "tracks": final}
+
+    def w_ids(self, H, tr):
+        where = {id(o): h for h, o in enumerate(H)}
+        return [where[id(o)] for o in tr.getObsList()]
+
+    def w_table(self, tr):
+        """names and columns of a track, read without going through the library (an observer must not have effects)"""
+        dico = tr._Track__analyticalFeaturesDico
+        names, cols = list(dico.keys()), []
+        for nm in names:
+            idx = dico[nm]
+            try:
+                cols.append([o.features[idx] for o in tr.getObsList()])
+            except IndexError:
+                cols.append("err:index")
+        return {"names": names, "cols": cols}
+
+    def w_heap(self, H):
+        out = []
+        for o in H:
+            s, c = o.timestamp, o.position
+            out.append({"xyz": [c.E, c.N, c.U], "t": [s.year, s.month, s.day, s.hour, s.min, s.sec, s.ms], "nf": len(o.features)})
+        return out
+
+    def w_apply(self, H, tracks, op):
+        kind, tr = op[0], tracks[op[1]]
+        if kind == "a":
+            return list(self.computeAbsCurv(tr))
+        if kind == "s":
+            return list(self.estimate_speed(tr))
+        if kind == "S":
+            return list(tr.estimate_speed())
+        if kind == "f":
+            return list(tr.addAnalyticalFeature(self.speed))
+        if kind == "d":
+            return list(tr.addAnalyticalFeature(self.ds, "ds"))
+        if kind == "I":
+            return list(tr.operate(self.Operator.INTEGRATOR, "ds", "abs_curv"))
+        if kind == "D":
+            return list(tr.operate(self.Operator.DIFFERENTIATOR, "abs_curv", "dd"))
+        if kind == "L":
+            return tr.length()
+        if kind == "c":
+            return self.curvAbsBetween(tr)
+        if kind == "g":
+            nm = op[2]
+            return list(tr.getAbsCurv() if nm == "abs_curv" else tr.getSpeed() if nm == "speed" else tr[nm])
+        if kind == "rm":
+            tr.removeAnalyticalFeature(op[2])
+            return None
+        if kind == "w":
+            tr[op[2]] = [NAN if v == "nan" else v for v in op[3]]
+            return None
+        if kind == "q":
+            return tr.isSorted() if op[2] == "sorted" else tr.duration() if op[2] == "dur" else list(tr.getT())
+        if kind == "ex":
+            o, c, v, form = tr.getObs(op[2]), op[3], op[4], (op[5] if len(op) > 5 else 0)
+            if form == 1:
+                tr.setObsAnalyticalFeature(c, op[2], v)
+            elif form == 2:
+                setattr(o.position, {"x": "E", "y": "N", "z": "U"}[c], v)
+            else:
+                {"x": o.position.setX, "y": o.position.setY, "z": o.position.setZ}[c](v)
+            return None
+        if kind == "et":
+            setattr(tr.getObs(op[2]).timestamp, op[3], op[4])
+            return None
+        if kind == "add":
+            new = tr + tracks[op[2]]
+        elif kind == "ext":
+            new = tr.extract(op[2], op[3])
+        elif kind == "sl":
+            new = tr[op[2]:op[3]]
+        elif kind == "cp":
+            new = tr.copy()
+            known = {id(o) for o in H}
+            for o in new.getObsList():
+                if id(o) not in known:
+                    known.add(id(o))
+                    H.append(o)
+        else:
+            raise ValueError(kind)
+        tracks.append(new)
+        return self.w_ids(H, new)
+
+    # ---------------------------------------------------------------- model
+    def w_requests(self, case):
+        if not W.valid_case(case):
+            return []
+        q = case["mode"] == "q"
+        enc = (lambda v: "nan" if v == "nan" else ratstr(v)) if q else (lambda v: "nan" if v == "nan" else fbits(v))
+        pool = []
+        for p, tms in zip(case["pos"], case["tms"]):
+            f = W.fields_of(tms)
+            pool.append(",".join([enc(p[0]), enc(p[1]), enc(p[2])] + [str(f[k]) for k in W.FIELDS]))
+        ops = []
+        for op in case["hist"]:
+            kind = op[0]
+            if kind in ("a", "f", "d", "I", "D", "L", "c", "cp"):
+                ops.append("%s:%d" % (kind, op[1]))
+            elif kind in ("s", "S"):
+                ops.append("s:%d" % op[1])
+            elif kind in ("g", "rm", "q"):
+                ops.append("%s:%d:%s" % (kind, op[1], op[2]))
+            elif kind == "w":
+                ops.append("w:%d:%s:%s" % (op[1], op[2], tok_list(enc(v) for v in op[3])))
+            elif kind == "add":
+                ops.append("add:%d:%d" % (op[1], op[2]))
+            elif kind in ("ext", "sl"):
+                ops.append("%s:%d:%d:%d" % (kind, op[1], op[2], op[3]))
+            elif kind == "ex":
+                ops.append("ex:%d:%d:%s:%s" % (op[1], op[2], op[3], enc(op[4])))
+            elif kind == "et":
+                ops.append("et:%d:%d:%s:%d" % (op[1], op[2], op[3], op[4]))
+        return ["C17.world %s %s %s" % (case["mode"], tok_list(pool, ";"), tok_list(ops, ";"))]
+
+    def w_decode(self, case, replies):
+        if not replies:
+            return {"invalid": True}
+        r = replies[0]
+        if r == "bad-request":
+            raise ValueError("bad-request")
+        q = case["mode"] == "q"
+        dec = (lambda w: NAN if w == "nan" else float(parse_rat(w))) if q else bitsf
+
+        def table(names, cols):
+            names = untok(names)
+            return {"names": names, "cols": [c if c.startswith("err:") else [dec(w) for w in untok(c)] for c in (untok(cols, ";") if names else [])]}
+
+        blocks = r.split(" ")
+        nops = len(case["hist"])
+        ops = []
+        for b in blocks[:nops]:
+            res, n0, c0, n1, c1, heap = b.split("~")
+            if res.startswith("err:"):
+                rec = {"err": res}
+            elif res == "-":
+                rec = {"r": None}
+            elif res[0] == "n":
+                rec = {"r": dec(res[1:])}
+            elif res[0] == "c":
+                rec = {"r": [dec(w) for w in untok(res[1:])]}
+            elif res[0] == "b":
+                rec = {"r": res[1:] == "1"}
+            else:
+                rec = {"r": [int(w) for w in untok(res[1:])]}
+            rec["pre"], rec["post"] = table(n0, c0), table(n1, c1)
+            hp = []
+            for o in untok(heap, ";"):
+                w = o.split(",")
+                hp.append({"xyz": [dec(w[0]), dec(w[1]), dec(w[2])], "t": [int(x) for x in w[3:10]], "nf": int(w[10])})
+            rec["heap"] = hp
+            ops.append(rec)
+        tracks = []
+        for b in blocks[nops:]:
+            ids, names, cols = b[1:].split("~")
+            t = table(names, cols)
+            t["ids"] = [int(w) for w in untok(ids)]
+            tracks.append(t)
+        return {"ops": ops, "tracks": tracks}
+
+    # ---------------------------------------------------------------- oracle on histories
+    def w_legs(self, sym, ids):
+        return [math.hypot(sym.pos[ids[i + 1]][0] - sym.pos[ids[i]][0], sym.pos[ids[i + 1]][1] - sym.pos[ids[i]][1]) for i in range(len(ids) - 1)]
+
+    def chk_abscurv(self, s, legs):
+        n = len(legs) + 1
+        if not isinstance(s, list) or len(s) != n:
+            return "abs_curv has %s values for %d fixes" % (len(s) if isinstance(s, list) else s, n)
+        if any(isnan(v) for v in s):
+            return "abs_curv contains NaN: %s" % s
+        if s[0] != 0:
+            return "abs_curv starts at %r, not 0" % (s[0],)
+        total = math.fsum(legs)
+        for i in range(n - 1):
+            inc = s[i + 1] - s[i]
+            if inc < 0:
+                return "abs_curv decreases at fix %d: %r -> %r" % (i + 1, s[i], s[i + 1])
+            tol = 1e-9 * max(legs[i], abs(s[i + 1])) + 1e-300
+            if abs(inc - legs[i]) > tol:
+                return "abs_curv grows by %r between fixes %d and %d, planimetric distance is %r" % (inc, i, i + 1, legs[i])
+        if abs(s[n - 1] - total) > 1e-9 * max(total, 1e-300):
+            return "abs_curv ends at %r, planimetric length is %r" % (s[n - 1], total)
+        return None
+
+    def chk_ds(self, d, legs):
+        n = len(legs) + 1
+        if not isinstance(d, list) or len(d) != n:
+            return "ds has %s values for %d fixes" % (len(d) if isinstance(d, list) else d, n)
+        if d[0] != 0:
+            return "ds[0] = %r, not 0" % (d[0],)
+        for i in range(n - 1):
+            if isnan(d[i + 1]) or abs(d[i + 1] - legs[i]) > 1e-9 * max(legs[i], 1e-300):
+                return "ds[%d] = %r, planimetric distance to the previous fix is %r" % (i + 1, d[i + 1], legs[i])
+        return None
+
+    def chk_speed(self, v, pos, tms):
+        n = len(pos)
+        if not isinstance(v, list) or len(v) != n:
+            return "speed has %s values for %d fixes" % (len(v) if isinstance(v, list) else v, n)
+        tmax = max(abs(t) for t in tms) / 1000.0
+        for i in range(n):
+            a, b = (1, 0) if i == 0 else (n - 1, n - 2) if i == n - 1 else (i + 1, i - 1)
+            el = Fraction(tms[a] - tms[b], 1000)
+            if el == 0:
+                if not isnan(v[i]):
+                    return "speed[%d] = %r although no time elapsed between fixes %d and %d (NaN expected)" % (i, v[i], b, a)
+                continue
+            d = math.hypot(pos[a][0] - pos[b][0], pos[a][1] - pos[b][1])
+            want = d / float(el)
+            rel = 1e-9 + (4 * ulp(tmax) / float(el) if any(t % 1000 for t in tms) else 0.0)
+            if isnan(v[i]) or abs(v[i] - want) > rel * max(abs(want), 1e-300):
+                return ("speed[%d] = %r, expected distance(fix %d, fix %d) / elapsed = %r / %s = %r"
+                        % (i, v[i], b, a, d, float(el), want))
+        return None
+
+    def w_spec(self, case, out):
+        if "err" in out:
+            return "raised %s (%s)" % (out["err"], out.get("detail"))
+        if out.get("invalid"):
+            return None
+        sym = W.Sym(case)
+        for j, (op, rec) in enumerate(zip(case["hist"], out["ops"])):
+            msg = self.w_check(sym, op, rec)
+            if msg:
+                return "operation %d %s: %s" % (j, json_short(op), msg)
+        return None
+
+    def w_check(self, sym, op, rec):
+        kind, k = op[0], op[1]
+        ok = sym.ok(k)
+        mono = sym.monotone(k)
+        info = sym.apply(op)                 # bookkeeping: positions / stamps after edits, names, slots, validity
+        ids = sym.tracks[k]["ids"]
+        n = len(ids)
+        # computing, reading, deriving tracks: positions and timestamps of EVERY observation stay what the history made them
+        heap = rec["heap"]
+        if len(heap) != len(sym.pos):
+            return "%d observations exist, %d expected" % (len(heap), len(sym.pos))
+        for h, o in enumerate(heap):
+            if not close(o["xyz"], sym.pos[h], 0.0, 0.0):
+                return "position of observation %d is %s, expected %s" % (h, o["xyz"], sym.pos[h])
+            if o["t"] != [sym.fld[h][f] for f in W.FIELDS]:
+                return "timestamp of observation %d is %s, expected %s" % (h, o["t"], [sym.fld[h][f] for f in W.FIELDS])
+        if kind in W.NEW_OPS or kind in W.EDIT_OPS:
+            return None
+        if not ok:
+            if "err" in rec:
+                sym.tainted = True          # partial effects of an exception on a misaligned table: outside the statement from here on
+            return None
+        if "err" in rec:
+            return "raised %s on a track whose feature table is aligned" % rec["err"]
+        # the other features of the track are left as they were
+        touched = set(W.TOUCHED.get(kind, ())) | ({op[2]} if kind in ("rm", "w") else set())
+        pre = dict(zip(rec["pre"]["names"], rec["pre"]["cols"]))
+        post = dict(zip(rec["post"]["names"], rec["post"]["cols"]))
+        for nm, col in pre.items():
+            if nm in touched:
+                continue
+            if nm not in post or not close(post[nm], col, 0.0, 0.0):
+                return "feature %s of the track changed: %s -> %s" % (nm, col, post.get(nm))
+        r = rec["r"]
+        stored = info.get("stored")
+        if stored is not None and (stored not in post or not close(post[stored], r, 0.0, 0.0)):
+            return "returned %s but track['%s'] reads %s" % (r, stored, post.get(stored))
+        chk = info["check"]
+        if chk is None or n < 2:
+            return None
+        pos = [sym.pos[h] for h in ids]
+        legs = self.w_legs(sym, ids)
+        if chk == "abs_curv":
+            return self.chk_abscurv(r, legs)
+        if chk == "ds":
+            return self.chk_ds(r, legs)
+        if chk == "speed":
+            return self.chk_speed(r, pos, [sym.tms(h) for h in ids]) if mono else None
+        if chk == "curvabs":
+            total = math.fsum(legs)
+            if isnan(r) or abs(r - total) > 1e-9 * max(total, 1e-300):
+                return "computeCurvAbsBetweenTwoPoints = %r, planimetric length is %r" % (r, total)
+        if chk == "length" and all(p[2] == pos[0][2] for p in pos):
+            total = math.fsum(legs)
+            if isnan(r) or abs(r - total) > 1e-9 * max(total, 1e-300):
+                return "length() = %r on a track of constant height, planimetric length is %r" % (r, total)
+        return None
+
+    # ---------------------------------------------------------------- shrinking / tags
+    def w_shrink(self, case):
+        hist = case["hist"]
+        for i in range(len(hist) - 1, -1, -1):
+            c = dict(case, hist=hist[:i] + hist[i + 1:])
+            if W.valid_case(c):
+                yield c
+        t0 = min(case["tms"])
+        base = t0 - t0 % 3600000
+        if base:
+            yield dict(case, tms=[t - base for t in case["tms"]])
+
+    def w_describe(self, case):
+        kinds = [op[0] for op in case["hist"]]
+        return {"kind": case["kind"] + "-" + case["mode"], "n": len(case["pos"]), "len": len(kinds),
+                "shared": any(k in ("add", "ext", "sl") for k in kinds), "edits": any(k in ("ex", "et") for k in kinds),
+                "ops": "".join(sorted(set(k[0] for k in kinds)))}
+
+    def w_nontrivial(self, case):
+        p = case["pos"]
+        return len(p) >= 2 and any(p[i][:2] != p[i + 1][:2] for i in range(len(p) - 1)) and any(op[0] in "asSfdI" for op in case["hist"])
